@@ -64,34 +64,43 @@ Qed.
 Lemma max_header_line_tie : gen_MAX_HEADER_LINE_SIZE = max_header_line.
 Proof. reflexivity. Qed.
 
+Lemma adj13_match (r : list N) (n : N) :
+  match r with 13%N :: _ => (n - 1)%N | _ => n end
+  = match r with c :: _ => if (c =? 13)%N then (n - 1)%N else n | [] => n end.
+Proof. exact (C13_proofs.adj13_spec r n). Qed.
+
+(* the proof scripts are tactics over the name of the generated definition: they are run once for the Gemini class (gen_m)
+   and once for the Titan class (gen_titan_m), each against its own generated text *)
+Ltac t_header_too_long g :=
+  let s := fresh "s" in let b := fresh "b" in let l := fresh "l" in let r := fresh "r" in
+  let H := fresh "H" in let L := fresh "L" in let x := fresh "x" in let t := fresh "t" in
+  intros s; unfold g, header_too_long, py_find; rewrite break_sub_crlf;
+  rewrite max_header_line_tie; unfold max_header_line;
+  generalize (cbuf s); clear s; intro b;
+  destruct (break_crlf b) as [[l r]|]; cbv zeta;
+  [ assert (H : (Z.of_nat (length l) <? 0)%Z = false) by lia; rewrite H; lia
+  | change ((-1 <? 0)%Z) with true; cbv iota;
+    unfold suffixb; change (rev [13%N]) with [13%N];
+    rewrite adj13_match;
+    pose proof (rev_length b) as L;
+    destruct (rev b) as [|x t];
+    [ cbn [prefixb]; lia
+    | cbn [prefixb]; rewrite andb_true_r, (N.eqb_sym 13 x); cbn [length] in L;
+      destruct (x =? 13)%N; lia ] ].
+
 Lemma header_too_long_tie : forall s, gen_header_too_long s = header_too_long (cbuf s).
-Proof.
-  intros s. unfold gen_header_too_long, header_too_long, py_find. rewrite break_sub_crlf.
-  rewrite max_header_line_tie. unfold max_header_line.
-  generalize (cbuf s); clear s; intro b.
-  destruct (break_crlf b) as [[l r]|]; cbv zeta.
-  - assert (H : (Z.of_nat (length l) <? 0)%Z = false) by lia. rewrite H. lia.
-  - change ((-1 <? 0)%Z) with true. cbv iota.
-    unfold suffixb. change (rev [13%N]) with [13%N].
-    change (match rev b with 13%N :: _ => (N.of_nat (length b) - 1)%N | _ => N.of_nat (length b) end)
-      with (C13_proofs.adj13 (rev b) (N.of_nat (length b))).
-    rewrite C13_proofs.adj13_spec.
-    pose proof (rev_length b) as L.
-    destruct (rev b) as [|x t].
-    + cbn [prefixb]. lia.
-    + cbn [prefixb]. rewrite andb_true_r, (N.eqb_sym 13 x). cbn [length] in L.
-      destruct (x =? 13)%N; lia.
-Qed.
+Proof. t_header_too_long gen_header_too_long. Qed.
 
 (* ====================================================================== *)
 (* _set_error, send_request, connection_made                               *)
 (* ====================================================================== *)
 
+Ltac t_set_error g :=
+  let s := fresh "s" in let k := fresh "k" in
+  intros s k; unfold g, set_err, fut_done, upd_cfut; destruct (cfut s); reflexivity.
+
 Lemma set_error_tie : forall s k, gen_set_error s k = (set_err s k, []).
-Proof.
-  intros s k. unfold gen_set_error, set_err, fut_done, upd_cfut.
-  destruct (cfut s); reflexivity.
-Qed.
+Proof. t_set_error gen_set_error. Qed.
 
 Lemma send_request_tie : forall soc db cap dw url b s,
   encode (url ++ [13; 10]%N) = Some b ->
@@ -150,19 +159,20 @@ Ltac ph_case Hse :=
     [ reflexivity | reflexivity | ph_two Hse | rewrite len3_ne2; reflexivity ]
   end.
 
+Ltac t_parse_header g :=
+  let a := fresh "a" in let b := fresh "b" in
+  let se := fresh "se" in let s := fresh "s" in let line := fresh "line" in let Hse := fresh "Hse" in
+  intros se s line Hse; unfold g, parse_header, partition, split1;
+  change (lit " ") with [32%N]; rewrite break_sub_char;
+  cbv zeta; rewrite !Hse;
+  destruct (break_at 32 line) as [[a b]|]; cbn [length nth_error];
+  [ change (N.of_nat 2 <? 1)%N with false; change (1 <? N.of_nat 2)%N with true; cbv iota; ph_case Hse
+  | change (N.of_nat 1 <? 1)%N with false; change (1 <? N.of_nat 1)%N with false; cbv iota; ph_case Hse ].
+
 Lemma parse_header_gen : forall se s line,
   (forall s k, se s k = (set_err s k, [])) ->
   gen_parse_header se s line = (parse_header s line, []).
-Proof.
-  intros se s line Hse. unfold gen_parse_header, parse_header, partition, split1.
-  change (lit " ") with [32%N]. rewrite break_sub_char.
-  cbv zeta. rewrite !Hse.
-  destruct (break_at 32 line) as [[a b]|]; cbn [length nth_error].
-  - change (N.of_nat 2 <? 1)%N with false. change (1 <? N.of_nat 2)%N with true. cbv iota.
-    ph_case Hse.
-  - change (N.of_nat 1 <? 1)%N with false. change (1 <? N.of_nat 1)%N with false. cbv iota.
-    ph_case Hse.
-Qed.
+Proof. t_parse_header gen_parse_header. Qed.
 
 Lemma parse_header_tie : forall s line,
   gen_parse_header (fun s k => (set_err s k, [])) s line = (parse_header s line, []).
@@ -184,6 +194,44 @@ Proof.
   destruct (_ || _); [rewrite connected_set_err; reflexivity|reflexivity].
 Qed.
 
+(* after `intros htl ph se s d Hh Hp Hs Hc; unfold <generated data_received>` *)
+Ltac t_size_check Hs Hc :=
+  let v := fresh "v" in
+  match goal with |- context [match status ?s with _ => _ end] =>
+    destruct (status s) as [v|]; cbn [negb]; [|reflexivity];
+    destruct ((20 <=? v)%N && (v <? 30)%N); [|reflexivity];
+    cbn [andb]; destruct (_ <? _)%N; [|reflexivity];
+    rewrite Hs, connected_set_err, Hc; reflexivity
+  end.
+
+Ltac t_data_received s d Hh Hp Hs Hc :=
+  let cap := fresh "cap" in let l := fresh "l" in let body := fresh "body" in let line := fresh "line" in
+  let v := fresh "v" in let E2 := fresh "E2" in let Hc0 := fresh "Hc0" in let Hhdr := fresh "Hhdr" in
+  unfold data_received;
+  generalize gen_MAX_RESPONSE_BODY_SIZE; intro cap;
+  cbv zeta;
+  change {| cbuf := cbuf s ++ d; hdr := hdr s; status := status s; meta := meta s; cfut := cfut s; connected := connected s |}
+    with (upd_cbuf s (cbuf s ++ d));
+  assert (Hc0 : connected (upd_cbuf s (cbuf s ++ d)) = true) by exact Hc;
+  generalize dependent (upd_cbuf s (cbuf s ++ d)); clear s Hc; intros s Hc;
+  rewrite Hh; unfold is_2x;
+  destruct (hdr s) eqn:Hhdr; cbn [negb andb];
+  [ (* the header was parsed earlier: only the size check *)
+    t_size_check Hs Hc
+  | destruct (header_too_long (cbuf s));
+    [ rewrite Hs, connected_set_err, Hc; reflexivity |];
+    unfold contains; rewrite break_sub_crlf;
+    destruct (break_crlf (cbuf s)) as [[l body]|];
+    [ destruct (decode l) as [line|]; [|reflexivity];
+      rewrite Hp; unfold upd_hdr, upd_cbuf; cbn [status connected cbuf hdr meta cfut];
+      rewrite connected_parse_header, Hc;
+      destruct (status (parse_header s line)) as [v|]; [|reflexivity];
+      destruct ((20 <=? v)%N && (v <? 30)%N) eqn:E2; cbn [negb andb status]; rewrite ?E2; cbn [andb];
+      [ destruct (cap <? _)%N; [|reflexivity];
+        rewrite Hs, connected_set_err; reflexivity
+      | reflexivity ]
+    | t_size_check Hs Hc ] ].
+
 Lemma data_received_gen : forall htl ph se s d,
   (forall s, htl s = header_too_long (cbuf s)) ->
   (forall s l, ph s l = (parse_header s l, [])) ->
@@ -191,36 +239,8 @@ Lemma data_received_gen : forall htl ph se s d,
   connected s = true ->
   gen_data_received htl ph se s d = data_received gen_MAX_RESPONSE_BODY_SIZE s d.
 Proof.
-  intros htl ph se s d Hh Hp Hs Hc. unfold gen_data_received, data_received.
-  generalize gen_MAX_RESPONSE_BODY_SIZE; intro cap.
-  cbv zeta.
-  change {| cbuf := cbuf s ++ d; hdr := hdr s; status := status s; meta := meta s; cfut := cfut s; connected := connected s |}
-    with (upd_cbuf s (cbuf s ++ d)).
-  assert (Hc0 : connected (upd_cbuf s (cbuf s ++ d)) = true) by exact Hc.
-  generalize dependent (upd_cbuf s (cbuf s ++ d)). clear s Hc. intros s Hc.
-  rewrite Hh. unfold is_2x.
-  destruct (hdr s) eqn:Hhdr; cbn [negb andb].
-  - (* the header was parsed earlier: only the size check *)
-    destruct (status s) as [v|]; cbn [negb]; [|reflexivity].
-    destruct ((20 <=? v)%N && (v <? 30)%N); [|reflexivity].
-    cbn [andb]. destruct (cap <? _)%N; [|reflexivity].
-    rewrite Hs, connected_set_err, Hc. reflexivity.
-  - destruct (header_too_long (cbuf s)).
-    { rewrite Hs, connected_set_err, Hc. reflexivity. }
-    unfold contains. rewrite break_sub_crlf.
-    destruct (break_crlf (cbuf s)) as [[l body]|].
-    + destruct (decode l) as [line|]; [|reflexivity].
-      rewrite Hp. unfold upd_hdr, upd_cbuf. cbn [status connected cbuf hdr meta cfut].
-      rewrite connected_parse_header, Hc.
-      destruct (status (parse_header s line)) as [v|]; [|reflexivity].
-      destruct ((20 <=? v)%N && (v <? 30)%N) eqn:E2; cbn [negb andb status]; rewrite ?E2; cbn [andb].
-      * destruct (cap <? _)%N; [|reflexivity].
-        rewrite Hs, connected_set_err. reflexivity.
-      * reflexivity.
-    + destruct (status s) as [v|]; cbn [negb]; [|reflexivity].
-      destruct ((20 <=? v)%N && (v <? 30)%N); [|reflexivity].
-      cbn [andb]. destruct (cap <? _)%N; [|reflexivity].
-      rewrite Hs, connected_set_err, Hc. reflexivity.
+  intros htl ph se s d Hh Hp Hs Hc. unfold gen_data_received.
+  t_data_received s d Hh Hp Hs Hc.
 Qed.
 
 Lemma data_received_tie : forall s d,
@@ -470,3 +490,114 @@ Proof.
   - rewrite connected_data_received. exact H.
   - rewrite connected_connection_lost. exact H.
 Qed.
+
+(* ====================================================================== *)
+(* TitanClientProtocol: the same model, with request = [line; content] and decode_body = true *)
+(* ====================================================================== *)
+
+Lemma titan_header_too_long_tie : forall s, gen_titan_header_too_long s = header_too_long (cbuf s).
+Proof. t_header_too_long gen_titan_header_too_long. Qed.
+
+Lemma titan_set_error_tie : forall s k, gen_titan_set_error s k = (set_err s k, []).
+Proof. t_set_error gen_titan_set_error. Qed.
+
+Lemma titan_parse_header_gen : forall se s line,
+  (forall s k, se s k = (set_err s k, [])) ->
+  gen_titan_parse_header se s line = (parse_header s line, []).
+Proof. t_parse_header gen_titan_parse_header. Qed.
+
+Lemma titan_parse_header_tie : forall s line,
+  gen_titan_parse_header (fun s k => (set_err s k, [])) s line = (parse_header s line, []).
+Proof. intros. apply titan_parse_header_gen. reflexivity. Qed.
+
+Lemma titan_data_received_gen : forall htl ph se s d,
+  (forall s, htl s = header_too_long (cbuf s)) ->
+  (forall s l, ph s l = (parse_header s l, [])) ->
+  (forall s k, se s k = (set_err s k, [])) ->
+  connected s = true ->
+  gen_titan_data_received htl ph se s d = data_received gen_MAX_RESPONSE_BODY_SIZE s d.
+Proof.
+  intros htl ph se s d Hh Hp Hs Hc. unfold gen_titan_data_received.
+  t_data_received s d Hh Hp Hs Hc.
+Qed.
+
+Lemma titan_data_received_tie : forall s d,
+  connected s = true ->
+  gen_titan_data_received (fun s => header_too_long (cbuf s)) (fun s l => (parse_header s l, [])) (fun s k => (set_err s k, [])) s d
+  = data_received gen_MAX_RESPONSE_BODY_SIZE s d.
+Proof. intros. apply titan_data_received_gen; auto. Qed.
+
+(* Titan's connection_lost decodes every text body: it is the model's connection_lost with decode_body = true *)
+Lemma titan_connection_lost_tie : forall dw url s exc,
+  (cfut s = Pending -> hdr s = true -> status s <> None) ->
+  gen_titan_connection_lost dw url s (option_map (app (lit "conn:")) exc) = (connection_lost true dw s exc, []).
+Proof.
+  intros dw url s exc HJ. unfold gen_titan_connection_lost, connection_lost, fut_done.
+  destruct (cfut s) eqn:Hf; [|reflexivity].
+  assert (SE : forall k, upd_cfut s (Done (RErr k)) = set_err s k).
+  { intro k. unfold set_err, upd_cfut. rewrite Hf. reflexivity. }
+  cbv zeta. rewrite !meta_or_empty.
+  destruct exc as [k|]; cbn [option_map].
+  { rewrite <- SE. reflexivity. }
+  destruct (hdr s) eqn:Hh; cbn [negb].
+  2:{ rewrite <- SE. reflexivity. }
+  destruct (status s) as [v|] eqn:Es; [|exfalso; apply HJ; auto].
+  unfold is_2x. destruct ((20 <=? v)%N && (v <? 30)%N); [|unfold upd_cfut; rewrite Hh, Es; reflexivity].
+  rewrite split_on_nth0. unfold is_text_meta. change ch_semi with 59%N. rewrite eqb_nil, andb_true_r.
+  destruct (_ || _); [|unfold upd_cfut; rewrite Hh, Es; reflexivity].
+  assert (CS : (if contains (lit "charset=") (lower (meta s))
+                then charset_of_parts (split_on 59 (meta s)) (lit "utf-8") else lit "utf-8") = charset_of (meta s)).
+  { unfold charset_of, charset_of_parts. change ch_semi with 59%N. fold has_cs.
+    destruct (contains (lit "charset=") (lower (meta s))) eqn:Ec; [reflexivity|].
+    destruct (find has_cs (map ustrip (split_on 59 (meta s)))) as [p|] eqn:Ef; [|reflexivity].
+    apply find_has_cs_contains in Ef. congruence. }
+  rewrite <- CS. rewrite charset_loop.
+  destruct (contains (lit "charset=") (lower (meta s)));
+    (destruct (dw _ (cbuf s)); [unfold upd_cfut; rewrite Hh, Es; reflexivity|rewrite <- SE; reflexivity]).
+Qed.
+
+Lemma titan_connection_made_gen : forall request soc db cap dw sr s,
+  (forall s, sr s = cstep request soc db cap dw s CSend) ->
+  gen_titan_connection_made sr soc s = cstep request soc db cap dw s CConnected.
+Proof.
+  intros request soc db cap dw sr s H. unfold gen_titan_connection_made. cbv zeta. rewrite H.
+  unfold cstep, upd_connected. cbn [connected]. destruct soc; reflexivity.
+Qed.
+
+(* Titan's send_request writes the request line, then the content: the model's `request` is [line; content] *)
+Lemma titan_send_request_tie : forall soc db cap dw url content b s,
+  encode (url ++ [13; 10]%N) = Some b ->
+  gen_titan_send_request url content s = cstep [b; content] soc db cap dw s CSend.
+Proof.
+  intros soc db cap dw url content b s H. unfold gen_titan_send_request, cstep. cbv zeta.
+  destruct (connected s); [|reflexivity]. rewrite H. reflexivity.
+Qed.
+
+Lemma titan_send_request_unencodable : forall url content s,
+  encode (url ++ [13; 10]%N) = None ->
+  gen_titan_send_request url content s = (s, if connected s then [CEscape (lit "UnicodeEncodeError")] else []).
+Proof.
+  intros url content s H. unfold gen_titan_send_request. cbv zeta.
+  destruct (connected s); [|reflexivity]. rewrite H. reflexivity.
+Qed.
+
+Lemma titan_cstep_data_tie : forall request soc db dw s d,
+  connected s = true ->
+  gen_titan_data_received gen_titan_header_too_long (gen_titan_parse_header gen_titan_set_error) gen_titan_set_error s d
+  = cstep request soc db gen_MAX_RESPONSE_BODY_SIZE dw s (CData d).
+Proof.
+  intros. cbn [cstep]. apply titan_data_received_gen; auto.
+  - apply titan_header_too_long_tie.
+  - intros. apply titan_parse_header_gen. apply titan_set_error_tie.
+  - apply titan_set_error_tie.
+Qed.
+
+Lemma titan_cstep_lost_tie : forall request soc cap dw url s exc,
+  (cfut s = Pending -> hdr s = true -> status s <> None) ->
+  gen_titan_connection_lost dw url s (option_map (app (lit "conn:")) exc) = cstep request soc true cap dw s (CLost exc).
+Proof. intros. cbn [cstep]. apply titan_connection_lost_tie; assumption. Qed.
+
+Lemma titan_cstep_connected_tie : forall soc db cap dw url content b s,
+  encode (url ++ [13; 10]%N) = Some b ->
+  gen_titan_connection_made (gen_titan_send_request url content) soc s = cstep [b; content] soc db cap dw s CConnected.
+Proof. intros. apply titan_connection_made_gen. intro s0. apply titan_send_request_tie. assumption. Qed.
